@@ -220,28 +220,30 @@ Proof.
     eexists; split; [reflexivity|]. split.
     + apply (Inv_frame w h t5); auto.
       destruct (Inv_WF w h t5 I5). constructor; cbn; auto; lia.
-    + etransitivity; [apply abs_move; reflexivity|]. rewrite A5, AL. reflexivity.
+    + etransitivity; [apply (abs_move t5); reflexivity|]. rewrite A5, AL.
+      cbn [t_row t_col t_last set_col set_cursor set_last]. unfold t5. rewrite t_row_set_active. reflexivity.
   - assert ((t_col t + pw >=? w) = false) as -> by lia.
     eexists; split; [reflexivity|]. split.
     + apply (Inv_frame w h t5); auto.
       apply WFs_set_col; [apply I5 | lia].
-    + etransitivity; [apply abs_move; try reflexivity; exact Hl5|]. rewrite A5, AL. reflexivity.
+    + etransitivity; [apply (abs_move t5); reflexivity|]. rewrite A5, AL.
+      cbn [t_row t_col t_last set_col set_cursor set_last]. fold t5. rewrite Hl5. unfold t5. rewrite t_row_set_active. reflexivity.
 Qed.
 
+End Print.
+
 (* printing one glyph of width 1 or 2 *)
-Lemma sim_print g pw : (pw =? 1) || (pw =? 2) = true ->
+Lemma sim_print w h t g pw : Inv w h t -> (pw =? 1) || (pw =? 2) = true ->
   exists t', print t g pw = TOk t' /\ Inv w h t' /\ abs t' = do_print (abs t) g pw.
 Proof.
-  intros Hpw0. assert (Hpw : 1 <= pw <= 2) by lia.
+  intros HI Hpw0. assert (Hpw : 1 <= pw <= 2) by lia.
   pose proof HI as [? Hw Hh Hirm Hlnm Hawm Halt Hcs Hsp Hsa].
   rewrite print_split; cbv zeta. rewrite (shift_plain _ g Hcs).
   destruct Hcs as [Hss Hd]. rewrite Hss.
-  destruct (print_wrap_sim pw Hpw) as [t2 [E2 [I2 [L2 [F2 A2]]]]].
+  destruct (print_wrap_sim w h t HI pw Hpw) as [t2 [E2 [I2 [L2 [F2 A2]]]]].
   rewrite E2; cbn [tbind].
-  destruct (print_place_sim_gen t2 I2 g pw Hpw L2 F2) as [t' [E' [I' A']]].
+  destruct (print_place_sim w h t2 I2 g pw Hpw L2 F2) as [t' [E' [I' A']]].
   exists t'; split; [exact E'|]; split; [exact I'|].
   rewrite A', A2. unfold do_print, spec_place; cbv zeta.
   destruct (v_pending (abs t) || (v_col (abs t) + pw >? v_cols (abs t))); reflexivity.
 Qed.
-
-End Print.
